@@ -7,7 +7,7 @@ from typing import Dict, List, Optional, Tuple
 from ..model import FuncInfo, dotted, norm, walk_no_nested
 from ..report import rule
 from ..settypes import SetKinds
-from ..util import allargs, key
+from ..util import allargs, key, strip_pre
 
 EXCLUDE_PREFIX = ("client_generators.dependencies",)  # runtime files copied verbatim, not part of generation
 
@@ -414,7 +414,17 @@ def c10_r3(ctx):
             if m == "write_text":
                 ctx.ok(f"{fi.key}: whole-file write_text on {base}", fi.loc(c))
             elif m == "mkdir":
-                ctx.ok(f"{fi.key}: mkdir on {base}", fi.loc(c))
+                eo = next((k.value for k in c.keywords if k.arg == "exist_ok"), None)
+                if isinstance(eo, ast.Constant) and eo.value is True:
+                    ctx.ok(f"{fi.key}: mkdir(exist_ok=True) on {base}", fi.loc(c))
+                else:
+                    # scenario: the directory holds a previous generation -> this mkdir must not run
+                    from ..absint import Interp
+                    outs = Interp(fi, lambda e, base=base: (True if norm(strip_pre(e)) in (f"{base}.exists()", f"{base}.is_dir()") else None),
+                                  is_effect=lambda k: isinstance(k.func, ast.Attribute) and k.func.attr == "mkdir").run()
+                    runs = [o for o in outs if any(isinstance(strip_pre(e), ast.Call) and not any(kk.arg == "exist_ok" for kk in strip_pre(e).keywords) for e in o.effects)]
+                    ctx.check(not runs, key(fi, f"{base}.mkdir()"), f"{base}.mkdir() runs although the directory exists (no exist_ok=True, no `not {base}.exists()` guard): generating a second time into the same "
+                              "target raises FileExistsError instead of reproducing the files", fi.loc(c), okmsg=f"{fi.key}: mkdir on {base} only when it does not exist")
             elif m == "exists":
                 # only as the guard of mkdir
                 par = parents_of(fi).get(id(c))
